@@ -39,11 +39,13 @@ def _closure_of(p, f, pv, op):
 def run(ck, tier):
     ck.rule("R-C08-utf16", "sibling agreement of index_to_position and position_to_index: the produced column and the counter compared with position.character are both sums of char::len_utf16 over the line (no len_utf8, no constant step) and both count lines by '\\n'")
     ck.rule("R-C08-range", "lint_to_diagnostic and every TextEdit of lint_to_code_actions take their range from span_to_range(source, lint.span) of the same document; Remove -> \"\", ReplaceWith(w) -> w, InsertAfter(w) -> flagged text followed by w; generate_code_actions filters with overlaps_with(range_to_span(..)) on the same document")
+    ck.rule("R-C08-verbatim", "the server's copy of a document is the client's text character for character: every Document built in update_document is built from the `text` parameter through copying conversions only, and every caller hands update_document the text field of the notification (or the server's own copy / the file it read) unaltered - otherwise every position after an altered character is off")
     ck.not_decided += ["the arithmetic of position_to_index (a position on the last line of a text without trailing newline is resolved against the previous line today: a value-level off-by-one, out of reach of structural rules)", "client-side application of the edit"]
     p = facts.load()
     byk = fns_by_key(p)
     _utf16(ck, p, byk)
     _range(ck, p, byk)
+    _verbatim(ck, p)
 
 
 def _newline_closure(c):
@@ -380,3 +382,110 @@ def _format_order(c, pv, t):
                 if "flagged" in kinds or "payload" in kinds:
                     order = kinds
     return order
+
+
+# ---------------------------------------------------------------------------------------------------
+VERBATIM = {"chars", "collect", "as_ref", "deref", "as_str", "borrow", "into_iter", "from_iter", "clone", "to_owned", "to_string",
+            "into", "from", "as_slice", "iter", "copied", "cloned", "as_bytes", "from_utf8", "from_utf8_unchecked", "as_mut", "deref_mut"}
+OPTION_PLUMBING = {"last", "first", "unwrap", "expect", "ok_or", "ok_or_else", "branch", "context", "with_context", "as_deref", "ok", "map_err",
+                   "unwrap_or_default", "take", "poll", "into_future", "new_unchecked", "get_context", "lock", "get", "get_mut", "last_mut", "pop"}
+TRANSFORM = {"filter", "filter_map", "replace", "replacen", "replace_range", "trim", "trim_start", "trim_end", "trim_matches", "trim_start_matches", "trim_end_matches",
+             "strip_prefix", "strip_suffix", "to_lowercase", "to_uppercase", "to_ascii_lowercase", "to_ascii_uppercase", "nfc", "nfd", "nfkc", "nfkd",
+             "split", "split_whitespace", "lines", "retain", "remove", "truncate", "drain", "dedup", "skip", "take_while", "skip_while", "map", "flat_map",
+             "rev", "chunks", "escape_default", "escape_debug", "from_utf8_lossy", "to_string_lossy", "insert", "insert_str", "push", "push_str", "extend"}
+TEXT_SOURCES = {"get_full_string", "read_to_string", "read"}
+
+
+def _text_walk(p, f, pv, op, depth=0, seen=None):
+    """follow an operand back through copying conversions; returns (leaves, transforms, unknown calls)"""
+    seen = set() if seen is None else seen
+    leaves, bad, unknown = [], [], []
+    for o in flatten(pv.trace_operand(op)):
+        if o in seen:
+            continue
+        seen.add(o)
+        if o[0] != "call":
+            leaves.append(o)
+            continue
+        t = f.blocks[o[1]]["t"]
+        inst = norm(inst_of(t))
+        m = last(inst)
+        if m.startswith("{closure"):            # a future polled in place: the async fn it is the body of
+            m = last(inst.rsplit("::", 1)[0])
+        if m in ("map", "and_then", "map_or", "then", "unwrap_or_else") and ("option::" in inst or "result::" in inst) and len(t["args"]) >= 2:
+            # Option/Result plumbing with a closure: the value is what the closure returns
+            cl = [x for x in pv.trace_operand(t["args"][-1]) if x[0] == "agg" and x[1] == "closure"]
+            c = p.fns.get(cl[0][2]) if len(cl) == 1 else None
+            if c is not None and depth < 12:
+                cv = Prov(c)
+                l2, b2, u2 = _text_walk(p, c, cv, {"m": [0]}, depth + 1, set())
+                leaves += [x for x in l2 if x[0] == "source"] or [("closure-result", c.name)]
+                bad += b2
+                unknown += u2
+                continue
+        if m in TEXT_SOURCES:
+            leaves.append(("source", m))
+            continue
+        if (m in VERBATIM or m in OPTION_PLUMBING) and t["args"] and depth < 12:
+            l2, b2, u2 = _text_walk(p, f, pv, t["args"][0], depth + 1, seen)
+            leaves += l2
+            bad += b2
+            unknown += u2
+            continue
+        if m in TRANSFORM:
+            bad.append("%s (line %d)" % (m, t["ln"]))
+            continue
+        g = [h for h in p.fns.values() if norm(h.name) == inst and h.crate == f.crate]
+        if g:
+            inner = sorted({method(tt) for h in with_closures(p, g[0]) for _, tt in h.calls() if method(tt) in TRANSFORM})
+            if inner:
+                bad.append("%s (line %d), which applies %s" % (keyname(p, g[0]), t["ln"], ", ".join(inner)))
+                continue
+        unknown.append("%s (line %d)" % (m, t["ln"]))
+    return leaves, bad, unknown
+
+
+def _verbatim(ck, p):
+    rule = "R-C08-verbatim"
+    f = p.fns.get("harper_ls::backend::{impl#0}::update_document::{closure#0}")
+    if not ck.anchor(rule, "Backend::update_document", f):
+        return
+    ck.saw(f)
+    pv = Prov(f)
+    sites = []
+    for bi, t in f.calls():
+        inst = norm(inst_of(t))
+        if inst.startswith("harper_core::document::{impl}::new"):
+            sites.append(("Document::%s" % last(inst), t))
+    ck.floor(rule, "Document constructors in update_document", len(sites), 1)
+    for what, t in sites:
+        leaves, bad, unknown = _text_walk(p, f, pv, t["args"][0])
+        fields = arg_fields(pv, t["args"][0]) if not bad else set()
+        key = "Backend::update_document:%s" % what
+        from_text = bool(leaves) and all(o[0] == "arg" and o[1] == 1 for o in leaves)
+        if bad:
+            ck.refuted(rule, key, f.loc(t["ln"]), "the text the Document is built from went through %s: the server's copy differs from the text the client holds, so every diagnostic range, code-action edit and ignore span after an altered character points at other characters" % "; ".join(bad))
+        elif unknown or not from_text:
+            ck.undecided(rule, key, f.loc(t["ln"]), "text operand not traced to the `text` parameter through copying conversions only (leaves %s, calls %s)" % (sorted(map(str, leaves))[:4], unknown[:4]))
+        else:
+            ck.proved(rule, key, f.loc(t["ln"]), "built from the `text` parameter through copying conversions only")
+    callers = []
+    for g in p.fns.values():
+        for bi, t in g.calls():
+            if norm(inst_of(t)) == "harper_ls::backend::{impl}::update_document":
+                callers.append((g, t))
+    ck.floor(rule, "callers of update_document", len(callers), 3)
+    for g, t in sorted(callers, key=lambda x: x[0].name):
+        ck.saw(g)
+        gv = Prov(g)
+        leaves, bad, unknown = _text_walk(p, g, gv, t["args"][2])
+        key = "%s:text-argument" % keyname(p, g)
+        fields = arg_fields(gv, t["args"][2])
+        if bad:
+            ck.refuted(rule, key, g.loc(t["ln"]), "the text handed to update_document went through %s" % "; ".join(bad))
+        elif unknown:
+            ck.undecided(rule, key, g.loc(t["ln"]), "text argument passes through calls outside the copying vocabulary: %s" % unknown[:4])
+        elif any(o[0] == "source" for o in leaves) or "text" in fields:
+            ck.proved(rule, key, g.loc(t["ln"]), "text argument is %s, unaltered" % ("the server's own copy / the file read" if any(o[0] == "source" for o in leaves) else "the notification's text field"))
+        else:
+            ck.undecided(rule, key, g.loc(t["ln"]), "text argument not traced to a text field (fields %s, leaves %s)" % (sorted(fields)[:5], sorted(map(str, leaves))[:3]))
